@@ -119,6 +119,25 @@ pub const GROUPS: &[(&str, &[(&str, &[Sel])])] = &[
             ],
         )],
     ),
+    // reliable SEND channel
+    (
+        "SendRel",
+        &[(
+            "renet/src/channel/reliable.rs",
+            &[
+                Sel::Enum("UnackedMessage"),
+                Sel::Method("UnackedMessage", "new_sliced"),
+                Sel::Struct("SendChannelReliable"),
+                Sel::Method("SendChannelReliable", "new"),
+                Sel::Method("SendChannelReliable", "available_memory"),
+                Sel::Method("SendChannelReliable", "can_send_message"),
+                Sel::Method("SendChannelReliable", "get_packets_to_send"),
+                Sel::Method("SendChannelReliable", "send_message"),
+                Sel::Method("SendChannelReliable", "process_message_ack"),
+                Sel::Method("SendChannelReliable", "process_slice_message_ack"),
+            ],
+        )],
+    ),
     (
         "Acks",
         &[(
